@@ -29,8 +29,23 @@ func (fe *FE) emitOpts(ob *Obligation, noQuant bool) string {
 		sb.WriteString(smtPreludeCore)
 	}
 	body := new(strings.Builder)
+	var subs []string
 	for _, n := range fe.gorder {
 		body.WriteString(fe.gdecls[n] + "\n")
+		if strings.HasPrefix(n, "sub_") {
+			subs = append(subs, n)
+		}
+	}
+	// embedded struct fields are objects of their own: distinct from allocated objects (negative references),
+	// from each other, and injective in their owner
+	if !noQuant {
+		for i, a := range subs {
+			fmt.Fprintf(body, "(assert (forall ((x Int)) (! (< (%s x) 0) :pattern ((%s x)))))\n", a, a)
+			fmt.Fprintf(body, "(assert (forall ((x Int) (y Int)) (! (=> (= (%s x) (%s y)) (= x y)) :pattern ((%s x) (%s y)))))\n", a, a, a, a)
+			for _, b := range subs[i+1:] {
+				fmt.Fprintf(body, "(assert (forall ((x Int) (y Int)) (! (not (= (%s x) (%s y))) :pattern ((%s x) (%s y)))))\n", a, b, a, b)
+			}
+		}
 	}
 	for _, a := range fe.gaxioms {
 		body.WriteString("(assert " + a + ")\n")
